@@ -32,8 +32,9 @@ Proof. exact stream_blocks_checked. Qed.
 Print Assumptions C09_reader_stream_in_bounds.
 
 (* (4) format: whatever the control string, the arguments and the two tables taken from control.go,
-   scanning directives (prefix parameters, v, #, 'c, modifiers) and running ~% ~& ~~ ~| never
-   indexes the control string, the argument list or the output out of range ... *)
+   scanning directives (prefix parameters, v, #, 'c, modifiers) and running ~% ~& ~~ ~| ~T and the move directive never
+   indexes the control string, the argument list, the output or the constant `spaces` out of range
+   (the move directive may have put the argument position anywhere, also below 0 or past the end) ... *)
 Theorem C09_format_scanner_no_fault : forall tb ctl args, format tb ctl args <> OFault.
 Proof. exact format_no_fault. Qed.
 Print Assumptions C09_format_scanner_no_fault.
@@ -42,6 +43,28 @@ Print Assumptions C09_format_scanner_no_fault.
 Theorem C09_format_scanner_terminates : forall tb ctl args, format tb ctl args <> OFuel.
 Proof. exact format_fuel_suffices. Qed.
 Print Assumptions C09_format_scanner_terminates.
+
+(* (6) ~T alone: for every modifier, parameter list (numbers, v, #, characters, missing) and output so
+   far, tabulating never takes spaces[:n] with a negative n: the distance to the target column is never
+   negative (the next multiple of colinc lies beyond the current column; colinc 0 is handled) *)
+Theorem C09_format_tab_no_fault : forall at_ params out, dir_t at_ params out <> TFault.
+Proof. exact dir_t_no_fault. Qed.
+Print Assumptions C09_format_tab_no_fault.
+
+(* (7) no unbounded allocation from ~T: since numeric parameters are limited to array-dimension-limit
+   (repo_fixes/C09-34), what one ~T appends is at most 2 * 268435456 bytes, whatever the parameters ... *)
+Theorem C09_format_tab_output_bounded : forall at_ params out out', dir_t at_ params out = TOut out' ->
+  (Z.of_nat (length out') <= Z.of_nat (length out) + 2 * max_dir_param)%Z.
+Proof. exact dir_t_output_bounded. Qed.
+Print Assumptions C09_format_tab_output_bounded.
+
+(* (8) ... and the product colnum * colinc that Go computes in a 64-bit int does not overflow for
+   parameters accepted by getIntParam, so modelling it in Z is faithful *)
+Theorem C09_format_tab_product_fits : forall params colnum colinc,
+  int_param params 0 0%Z true = PVal colnum -> int_param params 1 1%Z true = PVal colinc ->
+  (0 <= colnum * colinc < 2 ^ 63)%Z.
+Proof. exact dir_t_product_fits. Qed.
+Print Assumptions C09_format_tab_product_fits.
 
 (* FULL STATEMENT of the property (not a theorem here): for every Lisp-level input - text, function
    application, control string - the outcome is a value or a Lisp condition.  For the ~770 built-ins
